@@ -3,7 +3,7 @@
 Every input is assembled by the real pdpy11 (tools/impl.py, in-process, under its watchdog); the
 observations are judged inside coqc by Run/C15Run.v: bit 0 = Model/Rad50.v disagrees with the
 implementation, bit 1 = the observation contradicts Spec/Rad50Spec.v (no model, no Gen involved).
-Python's str.upper() for non-ASCII characters is passed along as an oracle (DESIGN 4 C15).
+No oracle is involved: '.rad50' and '^R' accept exactly the 40 characters in either ASCII case.
 """
 import random
 import common as C
@@ -21,15 +21,13 @@ RULE = ("exhaustive: all 64000 code triples as '.rad50 /abc/' in upper and in lo
         "non-trivial = a distinct (form, text) whose result is a packed word list or an error; the exhaustive parts count one per triple / code point")
 LEVEL_TEXT = ("Coq theorems over the TABLE regenerated from radix50.py on every run: TABLE is the DEC alphabet (40 distinct characters); "
               "unpack inverts the packing weights (lia over unbounded Z); '.rad50' on operands of ANY length over the alphabet in either case "
-              "with <n> codes decodes to the upper-cased space-padded text; <n> outside 0..39 and any character whose upper-case form is not one "
-              "alphabet character are errors; '^R' with 1-3 characters equals the word '.rad50' emits. str.upper() is a Section variable: the "
-              "theorems hold for every function that is ASCII upper-casing below 128. The hand model of rad50 / radix50_literal / pack_to_int "
+              "with <n> codes decodes to the upper-cased space-padded text; <n> outside 0..39 and any character that is not an "
+              "alphabet character in either ASCII case (any code point, unbounded) are errors; '^R' with 1-3 characters equals the word '.rad50' emits. The hand model of rad50 / radix50_literal / pack_to_int "
               "is tied by the exhaustive sweeps above, judged in coqc.")
 LEVEL_NOTE = ("Trusted: Coq kernel + vm_compute, tools/translate.py (TABLE), the sweep harness and its source printer, Spec/Rad50Spec.v, "
-              "CPython's str.upper() for non-ASCII characters (oracle). Print Assumptions: closed under the global context for every theorem.")
+              "CPython's str.isascii()/str.upper() on ASCII characters. Print Assumptions: closed under the global context for every theorem.")
 TECHNIQUE = "Coq proof over regenerated table + exhaustive model/implementation correspondence judged in coqc"
-ASSUME = ["Python's str.upper() is the meaning of 'folding case' for non-ASCII characters (for ASCII it is proved to be a-z -> A-Z)",
-          "the RADIX-50 alphabet in Spec/Rad50Spec.v is DEC's"]
+ASSUME = ["the RADIX-50 alphabet in Spec/Rad50Spec.v is DEC's"]
 TRUSTED = ["source printer of tools/props/c15.py (quoting/escaping of '.rad50' operands)"]
 
 # the Spec alphabet restated: used only to *print* the canonical inputs of the exhaustive sweeps (the
@@ -77,27 +75,6 @@ def obs_term(o):
     return "OOther"
 
 
-def py_upper(c):
-    try:
-        return [ord(x) for x in chr(c).upper()]
-    except Exception:
-        return [c]
-
-
-def umap_for(codepoints):
-    m = []
-    for c in sorted(set(codepoints)):
-        if c >= 128:
-            u = py_upper(c)
-            if u != [c]:
-                m.append((c, u))
-    return m
-
-
-def umap_term(m):
-    return "[" + "; ".join("(%d%%N, %s%%N)" % (c, C.nlist(u)) for c, u in m) + "]"
-
-
 def chunks_term(chunks):
     out = []
     for kind, v in chunks:
@@ -106,8 +83,7 @@ def chunks_term(chunks):
 
 
 def dir_case(chunks, o):
-    cps = [ord(x) for k, v in chunks if k == "s" for x in v]
-    return "CDir %s %s %s" % (umap_term(umap_for(cps)), chunks_term(chunks), obs_term(o))
+    return "CDir %s %s" % (chunks_term(chunks), obs_term(o))
 
 
 def lit_case(text, o):
@@ -173,8 +149,8 @@ def py_expected(chunks):
     for kind, v in chunks:
         if kind == "s":
             for x in v:
-                u = x.upper() if ord(x) >= 128 else (chr(ord(x) - 32) if "a" <= x <= "z" else x)
-                if len(u) == 1 and u in ALPHA:
+                u = chr(ord(x) - 32) if "a" <= x <= "z" else x
+                if ord(x) < 128 and u in ALPHA:
                     text += u
                 else:
                     bad_c = True
@@ -305,7 +281,7 @@ def single_dir_sweep(rep, limit):
         jobs.append(asm("".join(parts), watchdog=60))
         metas.append((cps, pos))
     outs = impl.pmap("assemble", jobs, chunksize=4)
-    refused_plain = []      # code points refused with exactly ['invalid-character'] whose upper() is themselves
+    refused_plain = []      # code points refused with exactly ['invalid-character'] (Coq decides whether each should be)
     explicit = {}           # code point -> observation (everything else)
     redo = []
     for (cps, pos), r in zip(metas, outs):
@@ -336,7 +312,7 @@ def single_dir_sweep(rep, limit):
             redo += cps
             continue
         for i, c in enumerate(cps):
-            if per[i] == ["invalid-character"] and (c >= 128 and py_upper(c) == [c] or c < 128 and not ("a" <= chr(c) <= "z")):
+            if per[i] == ["invalid-character"]:
                 refused_plain.append(c)
             elif per[i]:
                 explicit[c] = ("err", per[i])
